@@ -200,14 +200,28 @@ theorem mem_relayUnits {cfg : Config} {ifs : List Iface} {u : GUnit} (h : u ∈ 
         subst h
         simp [hf]
 
-/-- an address produced by `resolveSrflxAddresses` is the local address itself or an external one -/
+/-- an address produced by `resolveSrflxAddresses` is the local address itself, an external IPv4 address of
+a catch-all rule (only for an IPv4 local address), or one of the external addresses of a pinned rule -/
 theorem mappedAddr_cases (cfg : Config) (b : Addr) (ci : Nat) :
-    (((srflxMappedAddrs cfg b).getD [])[ci]?).getD b = b ∨
-      ((((srflxMappedAddrs cfg b).getD [])[ci]?).getD b).cls = AddrClass.x4 := by
+    (((srflxMappedAddrs cfg b).getD [])[ci]?).getD b = b
+    ∨ (((((srflxMappedAddrs cfg b).getD [])[ci]?).getD b).cls = AddrClass.x4 ∧ b.cls.is6 = false)
+    ∨ (∃ r exts, cfg.srflxPinned = some (r, exts) ∧ (((srflxMappedAddrs cfg b).getD [])[ci]?).getD b ∈ exts) := by
   unfold srflxMappedAddrs
   split
-  · rcases ci with _ | ci <;> simp
-  · cases cfg.srflxRewrite <;> rcases ci with _ | _ | ci <;> simp
+  · rename_i r exts hp
+    split
+    · simp only [Option.getD_some]
+      cases hg : exts[ci]? with
+      | none => left; simp
+      | some a =>
+        right; right
+        exact ⟨r, exts, hp, by simpa [hg] using List.mem_of_getElem? hg⟩
+    · left; rcases ci with _ | ci <;> simp
+  · split
+    · left; rcases ci with _ | ci <;> simp
+    · rename_i h6
+      have h6' : b.cls.is6 = false := by simpa using h6
+      cases cfg.srflxRewrite <;> rcases ci with _ | _ | ci <;> simp [h6']
 
 /-- an address produced by `resolveRelayAddresses` is the relayed address or an external one -/
 theorem relayAddr_cases (cfg : Config) (m ci : Nat) :
